@@ -61,3 +61,13 @@ Definition priv_ok (c : priv_case) : bool :=
   | Some (a, p, f) => Ns_eqb a (pv_expect 0 (pv_pubs c)) && Ns_eqb p (pv_expect 1 (pv_pubs c)) && Ns_eqb f (pv_expect 2 (pv_pubs c))
   | None => true
   end.
+
+(* C02 with update fields in the URL's query string: only the body is a publish request. Events seen by a witness of
+   everything and by a witness of a topic the publisher's claim does not cover, as (id, data, type) codes:
+   1 = the body's value, 2 = the query string's, 0 = anything else. *)
+Record qt_case := { qt_status : N; qt_body_topic : bool; qt_all : list (N * N * N); qt_secret : list (N * N * N) }.
+Definition qt_ok (c : qt_case) : bool :=
+  match qt_secret c with [] => true | _ => false end &&
+  (if N.eqb (qt_status c) 200
+   then qt_body_topic c && match qt_all c with [(1, 1, 1)] => true | _ => false end
+   else N.leb 400 (qt_status c) && N.ltb (qt_status c) 500 && match qt_all c with [] => true | _ => false end).
